@@ -32,6 +32,7 @@ CONSTANTS
     AliasGrants,    \* may the broker grant data-id aliases?
     CloseShortcut,  \* TRUE = Close skips the wait when the highest seq is acked (as coded at the pinned commit)
     MaxConflicts,   \* resume answered with ResumeRequestConflict at most this many times
+    CancelIsTimeout,\* TRUE = a sender waiting for its ack when the run is cancelled may report an ack timeout and remove the chunk (as coded at the pinned commit)
     RecordScript    \* TRUE: keep the environment projection in `script` (FALSE for liveness checking: no VIEW there)
 
 VARIABLES s, script
@@ -243,9 +244,11 @@ Detect ==
 \* cancelled, flushLoop does its final flush, result channels are closed and cleared
 WatcherFire ==
     /\ s.cstatus = "reconnecting" /\ s.runst = "running" /\ ~s.closed /\ s.fl = "idle"
-    /\ s' = [Cut(s) EXCEPT !.sstatus = IF s.sstatus = "draining" THEN @ ELSE "resuming",
-                           !.runst = "stopped", !.awaiting = {}, !.wait = {}, !.resendQ = {}, !.resendCur = 0,
-                           !.aliasQ = <<>>, !.resQ = <<>>]
+    /\ \E X \in SUBSET s.awaiting :
+         /\ (~CancelIsTimeout => X = {})          \* X = senders that take the cancellation for an ack timeout (withAckTimeoutCh's random select)
+         /\ s' = [Cut(s) EXCEPT !.sstatus = IF s.sstatus = "draining" THEN @ ELSE "resuming",
+                                !.runst = "stopped", !.awaiting = {}, !.gotRes = @ \cup X, !.wait = {}, !.resendQ = {}, !.resendCur = 0,
+                                !.aliasQ = <<>>, !.resQ = <<>>]
     /\ Quiet
 
 \* slow-redial assumption of this configuration: the new connection is up only after the watcher fired
